@@ -15,7 +15,8 @@
      8    (d) any finishing order; a step does not depend on the siblings' codes
      9    (e) thread names; one active branch stays on the caller
      10   (a) nesting: blocks inside children, descendants
-     11   (f) schedule independence for per-name worlds - PARTIAL (one block, events-only children)
+     11   (f) schedule independence for per-name worlds - PARTIAL (one block, events-only children);
+          nested blocks of any depth: proofs/ThreadsIndep.v
      Ex*  modules after the sections: examples (vm_compute) and instantiations - the hypotheses
           are satisfiable, the machine runs (a 3-child program under two schedules, ...)
    `Print Assumptions` follows each group of main theorems.  The only axiom that appears is
@@ -3387,7 +3388,10 @@ Section Independent.
        - for arbitrary code (nested blocks, children that spawn and join).  This needs a diamond
        argument up to a renaming of thread indices (two threads that spawn in different orders get
        different handles, and handles are captured by HOAS continuations); it is not attempted.
-     What IS proved, for every schedule: *)
+       For hereditarily block-structured code (nested blocks of any depth, where handles only
+       reach `Join`) it IS proved, in proofs/ThreadsIndep.v (schedule_independence_nested,
+       two_schedules_agree_nested).
+     What is proved HERE, for every schedule: *)
   (* (f), PARTIAL: ONE block whose children and continuation are events-only (no nested
      spawning/joining), product world, distinct names, nobody else running.  Under EVERY schedule:
      - at most the n children are ever created, child i is thread L0+i;
